@@ -109,6 +109,19 @@ def b_control(c):
     return sl.LDAPControl(oid, crit, value)
 
 
+def fresh(x):
+    """A deep copy of an abstract value made of new bytes/str objects: objects built from it own their field values, so
+    those die with the object (as in an application that builds a value, uses it and drops it) and their addresses get
+    reused by later values."""
+    if isinstance(x, tuple):
+        return tuple(fresh(y) for y in x)
+    if isinstance(x, bytes):
+        return bytes(bytearray(x))
+    if isinstance(x, str) and not isinstance(x, enum.Enum):
+        return (x + " ")[:-1]
+    return x
+
+
 def b_filter(f):
     k = f[0]
     if k == "and":
